@@ -39,7 +39,7 @@ def _cargo(args, target_dir, rustflags=None, cwd=REPO, toolchain=None, extra_env
 
 def fastpasta(kind="rel"):
     """kind: rel = hooks on, fast release codegen; ship = hooks on, exact shipped profile (LTO);
-    plain = hooks off; asan = AddressSanitizer (nightly)."""
+    plain = hooks off; asan = AddressSanitizer, tsan = ThreadSanitizer (nightly)."""
     if os.environ.get("VERIF_COVERAGE") and kind in ("rel", "plain", "ship"):
         kind = "cov"  # tools/coverage.py: same sources, hooks on, plus -Cinstrument-coverage (measurement only, never a verdict)
     if kind in _done:
@@ -60,6 +60,11 @@ def fastpasta(kind="rel"):
     elif kind == "ship":
         _cargo(["build", "--release", "-p", "fastpasta", "--offline"], td, "--cfg fastpasta_verif", what="fastpasta shipped profile")
         exe = os.path.join(td, "release", "fastpasta")
+    elif kind == "tsan":
+        # ThreadSanitizer needs an instrumented std: -Zbuild-std (std and panic_abort, the release profile aborts on panic); works offline from rust-src
+        _cargo(["build", "--release", "-p", "fastpasta", "--offline", "-Zbuild-std=std,panic_abort", "--target", "x86_64-unknown-linux-gnu"] + FAST, td,
+               "--cfg fastpasta_verif -Zsanitizer=thread", toolchain="+nightly", what="fastpasta TSan")
+        exe = os.path.join(td, "x86_64-unknown-linux-gnu", "release", "fastpasta")
     elif kind == "asan":
         _cargo(["build", "--release", "-p", "fastpasta", "--offline", "--target", "x86_64-unknown-linux-gnu"] + FAST, td,
                "--cfg fastpasta_verif -Zsanitizer=address -Cforce-frame-pointers=yes", toolchain="+nightly",
